@@ -32,7 +32,8 @@ REGISTRY = dict(
     note=("Trusted: Coq 8.16.1 kernel (vm_compute, no native_compute), translate/skeleton.py (AST -> phases, fail closed), harness/c02.py + scripted_envs.py, Python/numpy/gymnasium/multiprocessing/pickle, "
           "the operating system's pipes. Modelled, not verified: one FIFO pipe per direction and worker, atomic worker iterations. Deadlock freedom is proved for programs that run sequentially "
           "(every recv has its send); for send-all/receive-all programs this is proved for all n, for index-subset programs (get_attr/set_attr/env_method) it is evaluated per generated case. "
-          "The equality of the protocol model's replies with Model/VecEnv.v (C01) is by definition of the worker step (sub_step/sub_reset) and checked by evaluation, not stated as a theorem. "
+          "The equality of the protocol model's replies with the DummyVecEnv loop of Model/VecEnv.v (C01) is a theorem for step() (C02_step_eq_dummy_step); for reset() and the attribute/method calls it holds by "
+          "definition of the worker step (sub_reset / attribute access) and is checked by evaluation on every generated case. "
           "Quick tier: start method fork, n_envs 1-3; forkserver/spawn only in the thorough tier. Known finding F10 (reward dtype) reproduced from corpus/C02.jsonl. "
           "All C02 theorems are closed under the global context."),
     technique="machine-checked proof in Coq (simulation invariant over all schedules, induction over programs) + regenerated communication skeleton + differential lock-step correspondence with injected delays",
@@ -241,6 +242,12 @@ def run_pair(case, calls=None):
             d = same(dummy.env_method("get_log"), sub.env_method("get_log"), "sub-environment logs")
             if d:
                 probs.append(("subenv-received-calls-differ", d))
+        except BaseException:
+            # a hang or crash: do not wait for workers that may never answer
+            for proc in getattr(sub, "processes", []):
+                proc.terminate()
+            sub.closed = True
+            raise
         finally:
             dummy.close()
             sub.close()
@@ -372,19 +379,37 @@ def main():
     quick = chk.tier == "quick"
     cases = load_corpus()
     n_corpus = len(cases)
-    n_gen = 120 if quick else 600
-    methods = ["fork"] if quick else ["fork", "forkserver", "spawn"]
+    n_gen = 120 if quick else 300
     for k in range(n_gen):
-        cases.append(gen_case(chk.rng, k, start_method=methods[k % len(methods)]))
+        # forkserver / spawn start a fresh interpreter per worker (several seconds): thorough tier only, every 5th history
+        method = "fork" if quick or k % 5 else ("forkserver" if k % 10 else "spawn")
+        cases.append(gen_case(chk.rng, k, start_method=method))
     hist = {"start_method": {}, "delay_pattern": {}, "obs_kind": {}, "n_envs": {}, "calls": {}, "total_calls": 0, "model_compared": 0}
     distinct = set()
     results = []
+    import signal
+
+    class Hang(Exception):
+        pass
+
+    def on_alarm(signum, frame):
+        raise Hang()
+
+    signal.signal(signal.SIGALRM, on_alarm)
     for c in cases:
+        signal.alarm(60)
         try:
             probs, trace = run_pair(c)
+        except Hang:
+            probs, trace = [("hang-or-deadlock", "the lock-step history did not return within 60 s")], None
         except Exception as e:  # noqa: BLE001
             probs, trace = [("crash", f"{type(e).__name__}: {e}")], None
+        finally:
+            signal.alarm(0)
         results.append((probs, trace))
+        if any(p[0] in ("hang-or-deadlock", "crash") for p in probs):
+            break
+    cases = cases[: len(results)]
     # protocol model under a random schedule on the same calls
     mcases = [i for i, c in enumerate(cases) if integral_rewards(c) and results[i][1] is not None]
     exprs = [e for i in mcases for e in model_exprs(cases[i])]
@@ -406,7 +431,7 @@ def main():
             chk.violation("reward-dtype-float32-vs-float64", known[0][1], {"case": c, "problems": [list(p) for p in known[:5]]}, found_input=True)
         if other:
             sig = other[0][0]
-            small = shrink(c, sig) if sig != "crash" else c["calls"]
+            small = shrink(c, sig) if sig not in ("crash", "hang-or-deadlock") else c["calls"]
             c2 = dict(c, calls=small)
             chk.violation(sig, "; ".join(m for _, m in other[:3]), {"case": c2, "problems": [list(p) for p in other[:10]]}, found_input=True)
             break
